@@ -6,12 +6,15 @@ from props import gpcommon as G
 ID = "C15"
 RULE = ("Generated programs in which threads register/unregister (memb, mb, qsbr) repeatedly, or are created and exit in waves (T0 spawn/join "
         "program; bp: first read-side use registers, thread exit unregisters) with 2..6 threads against a bp registry whose initial capacity is 1 (chunks of 1, 2, 4 slots) "
-        "(hook), with mremap in-place growth accepted or refused (fault), and signals aimed at threads during bp registration. Oracles: the C01 "
+        "(hook), with mremap in-place growth accepted or refused (fault), and signals aimed at threads during bp registration and into their exit path (the destructor that unregisters them); one bp case in four is a "
+        "herd case: 9-20 extra threads make their first read-side call and stay alive (every fourth inside its section) while an updater and a reader run, so the registry passes 8, 16 "
+        "and 32 slots, growing in place across page boundaries (cfg inplace: the engine's mmap/mremap wrappers keep the range after each library mapping free, an access past the grown "
+        "mapping faults) or by new chunks. Oracles: the C01 "
         "interval/litmus/shadow-heap oracles and the C02 termination oracles on these scenarios; bp reader-slot address constant for the thread's "
         "life; number of distinct bp slots ever handed out <= peak number of live threads (slots are reused); self-deadlock of a signal handler on "
         "the registry lock is reported by the deadlock detector. Non-trivial: a (un)registration happened while a synchronize_rcu() was in flight, "
         "or the bp arena grew. distinct = distinct case text.")
-ASSUMPTIONS = G.E1_ASSUMPTIONS + ["bounded: <=6 threads, <=10 ops per thread, <=2 waves"]
+ASSUMPTIONS = G.E1_ASSUMPTIONS + ["bounded: <=6 program threads (+ <=20 herd threads), <=10 ops per thread, <=2 waves"]
 EXAMPLES = {"quick": 300, "thorough": 6000}
 
 
@@ -20,7 +23,18 @@ def example(draw, tier):
     memb = draw(st.integers(0, 1)) if flavor in ("memb", "bp") else 1
     maxt = 6 if flavor == "bp" else (4 if tier == "quick" else 5)
     churn = flavor == "bp" and draw(st.integers(0, 2)) == 0
-    if churn:
+    herd = flavor == "bp" and not churn and draw(st.integers(0, 2)) == 0
+    if herd:
+        # herd: 9..20 extra threads registered at once (beyond the 8- and 16-slot capacities at which the chunk no longer fits its pages), every fourth
+        # blocked inside its section, against an updater and a reader; the registry mapping grows in place (cfg inplace 1: the range after it is free)
+        # or by new chunks (kernel's choice, or refused by fault)
+        nh = draw(st.sampled_from([9, 12, 17, 17, 18, 20]))
+        prog = ["T1 sync 0"] * draw(st.integers(1, 2)) + ["T1 lock", "T1 read 0", "T1 unlock"]
+        rd = ["lock", "read 0"] + ["yield"] * draw(st.integers(0, 4)) + ["unlock", "lock", "read 0", "unlock"]
+        prog += ["T2 " + o for o in rd]
+        nops = [0, len(prog) - len(rd), len(rd)]
+        nslots = 1
+    elif churn:
         # slot churn: short-lived reader threads that stay alive for a generated number of yields, created and joined in waves, plus one updater;
         # with new-chunk growth forced (every in-place mremap refused) or accepted. Exercises slot reuse across chunks of capacity 1, 2, 4.
         n = draw(st.integers(3, 6))
@@ -36,7 +50,11 @@ def example(draw, tier):
     n = len(nops) - 1
     # T0 program: waves of spawn/join (valid: every thread spawned once, joined once, after its spawn)
     t0 = []
-    if churn or draw(st.booleans()):
+    if herd:
+        pre = draw(st.integers(0, 2))
+        t0 = ["T0 spawn %d" % t for t in range(1, pre + 1)] + ["T0 herd %d" % nh] + ["T0 spawn %d" % t for t in range(pre + 1, 3)] + ["T0 unherd", "T0 join 1", "T0 join 2"]
+        nops[0] = len(t0)
+    elif churn or draw(st.booleans()):
         order = list(range(1, n + 1))
         live = []
         for t in order:
@@ -47,11 +65,18 @@ def example(draw, tier):
             t0.append("T0 join %d" % t)
         nops[0] = len(t0)
     head = ["scen gp_" + flavor, "cfg membarrier %d" % memb]
+    if flavor == "bp" and draw(st.integers(0, 1 if herd else 3)) == 0:
+        head.append("cfg inplace 1")
+    if flavor in ("bp", "memb") and draw(st.integers(0, 3)) == 0:
+        head.append("cfg early 1")   # first use precedes the library's constructor: bp initialises on first registration and tears down when the last thread leaves
     sigth = list(range(1, n + 1)) if flavor == "bp" else []
     out = []
     for _ in range(gen.BATCH):
         sched = gen.schedule_lines(draw, tier, len(nops), nops, faults=(("mremap_fail_all", "mremap_fail_all", "mremap_fail") if churn else ("mremap_fail", "mremap_fail_all")) if flavor == "bp" else (), fault_max=1,
                                    sig_threads=sigth if draw(st.integers(0, 2)) == 0 else (), sig_max=2)
+        # bp: a signal aimed into a thread's exit path (the destructor that unregisters it and releases its slot)
+        if flavor == "bp" and not herd and draw(st.integers(0, 3)) == 0:
+            sched = sched + ["sigx %d %d" % (draw(st.integers(1, n)), draw(st.integers(1, 45)))]
         out.append("\n".join(head + t0 + prog + sched) + "\n")
     return out
 
